@@ -83,6 +83,7 @@ class MockCA:
             "order_polls_before_ready": 0,
             "order_polls_before_valid": 0,
             "chain_len": 2,
+            "url_host": None,
             "chain_order": "normal",   # "reversed": issuers first, end-entity last
             "order_ident_case": None,  # "upper": DNS names upper-cased in the order objects the CA serves
             "chain_pad": 0,       # > 0: that many extra names in every upper certificate (a BIG chain)
@@ -148,6 +149,9 @@ class MockCA:
             scheme = "https"
             host = self.tls.get("host", "localhost")
         self.port = self.srv.server_address[1]
+        # `url_host`: how the CA spells its own host name in every URL it hands out (e.g. "Localhost": a
+        # spelling a URL library would "canonicalise"; the client must give back exactly what it was given)
+        host = self.o.get("url_host") or host
         self.base = "%s://%s:%d" % (scheme, host, self.port)
         self.th = threading.Thread(target=self.srv.serve_forever, kwargs={"poll_interval": 0.05},
                                    daemon=True)
